@@ -117,6 +117,13 @@ def regen_tables():
     return True, "changed" if changed else "unchanged"
 
 
+def regen_sites():
+    """Source-site recogniser -> coq/gen/Sites_gen.v (see tools/sites.py)."""
+    with Lock("coq"):
+        rc, out, err = run([sys.executable, os.path.join(VERIF, "tools", "sites.py"), REPO, os.path.join(COQ, "gen", "Sites_gen.v")], timeout=120)
+    return rc == 0, (out + err)[-1500:]
+
+
 def regen_consts():
     """Translator: parse /repo sources into coq/gen/Consts_gen.v."""
     gt = os.path.join(BUILD, "gotrans")
@@ -173,7 +180,7 @@ def coq_property(pid, timeout=3000):
         if b.startswith("Closed"):
             assumptions[name] = "Closed under the global context"
         else:
-            assumptions[name] = " ".join(b.split())[:600]
+            assumptions[name] = " ".join(b.split())[:6000]
     return dict(ok=(rc == 0), output=text[-6000:], theorems=theorems, examples=examples, assumptions=assumptions)
 
 
